@@ -354,3 +354,28 @@ func (b *boundsCtx) describe() string {
 	}
 	return strings.Join(s, "; ")
 }
+
+// inconsistent: the integer facts of the path contradict each other (some fact's negation follows from the others),
+// e.g. "the loop over C ran" (0 <= i < len(C)) together with "a loop over C did not run" (len(C) <= 0).
+func (b *boundsCtx) inconsistent() bool {
+	all := b.facts
+	defer func() { b.facts = all }()
+	for i, f := range all {
+		if len(f.t) == 0 {
+			if f.k < 0 {
+				return true
+			}
+			continue
+		}
+		rest := make([]lin, 0, len(all)-1)
+		rest = append(rest, all[:i]...)
+		rest = append(rest, all[i+1:]...)
+		b.facts = rest
+		neg := lin{t: map[string]int64{}}.add(f, -1)
+		neg.k--
+		if b.prove(neg) {
+			return true
+		}
+	}
+	return false
+}
